@@ -219,7 +219,7 @@ func (c *Ctx) Finish() int {
 	dir := VerifDir()
 	fmt.Println() // the code under test prints to stdout without newlines; contract lines must start a line
 	_ = os.MkdirAll(filepath.Join(dir, "evidence"), 0o755)
-	_ = os.MkdirAll(filepath.Join(dir, "replays"), 0o755)
+	_ = os.MkdirAll(ReplayDir(), 0o755)
 
 	for name, min := range c.minimums {
 		if os.Getenv("VERIF_CASE") != "" {
@@ -258,7 +258,7 @@ func (c *Ctx) Finish() int {
 			continue
 		}
 		unknown++
-		path := filepath.Join(dir, "replays", fmt.Sprintf("%s-seed%d-%d.json", c.ID, c.Seed, i))
+		path := filepath.Join(ReplayDir(), fmt.Sprintf("%s-seed%d-%d.json", c.ID, c.Seed, i))
 		b, _ := json.MarshalIndent(map[string]any{
 			"property": c.ID, "seed": c.Seed, "tier": c.Tier, "signature": s,
 			"count": c.counters["violations:"+s], "violations": vs,
@@ -327,6 +327,15 @@ func (c *Ctx) Finish() int {
 	return exit
 }
 
+// ReplayDir is where witnesses go: /verif/replays, or VERIF_REPLAY_DIR for runs against a scratch copy
+// of the repository (so that they do not overwrite the witnesses of runs against /repo).
+func ReplayDir() string {
+	if d := os.Getenv("VERIF_REPLAY_DIR"); d != "" {
+		return d
+	}
+	return filepath.Join(VerifDir(), "replays")
+}
+
 // Watchdog reports a progress violation if a watched section runs longer than
 // its limit: the property itself promises an answer, so expiry is a violation
 // when `progressIsProperty` is set, otherwise the run is inconclusive. It
@@ -357,8 +366,8 @@ func (c *Ctx) NewWatchdog() *Watchdog {
 				if time.Now().After(s.deadline) {
 					buf := make([]byte, 1<<20)
 					n := runtime.Stack(buf, true)
-					_ = os.MkdirAll(filepath.Join(VerifDir(), "replays"), 0o755)
-					dump := filepath.Join(VerifDir(), "replays", fmt.Sprintf("%s-seed%d-watchdog-goroutines.txt", c.ID, c.Seed))
+					_ = os.MkdirAll(ReplayDir(), 0o755)
+					dump := filepath.Join(ReplayDir(), fmt.Sprintf("%s-seed%d-watchdog-goroutines.txt", c.ID, c.Seed))
 					_ = os.WriteFile(dump, buf[:n], 0o644)
 					if ended := UnexpectedEnds(); ended != "" {
 						// the wait cannot complete because an instance is gone, not because the code
